@@ -385,6 +385,26 @@ package node
 //@ site-requires (*Pegnetd).SyncBlock | (*Pegnetd).GetAssetRates | 1
 //@   requires @band_rule_of_the_height height >= config.V20DevRewardsHeightActivation
 //@
+//@ // ---- start-up (C19 C02): the node resumes from the persisted height, and a database the version check refuses is opened
+//@ // only under the explicit override flag
+//@ func InitChainsFromConfig
+//@   trusted
+//@   modifies config.OPRChain, config.SPRChain, config.TransactionChain
+//@ func FactomClientFromConfig
+//@   trusted
+//@   pure
+//@   ensures result != nil && fresh(result)
+//@
+//@ func NewPegnetd
+//@   props C19 C02
+//@   nopanic off
+//@   requires @versions forall x int :: LsyncPresent[x] ==> LsyncVer[x] >= 0 - 1 && x >= 0
+//@   requires @meta LmetaPresent ==> LmetaSynced >= 0
+//@   modifies LsyncPresent, LsyncVer, config.OPRChain, config.SPRChain, config.TransactionChain
+//@   ensures @started_node_is_wellformed result1 == nil ==> result0 != nil && result0.Pegnet != nil && result0.Sync != nil && result0.Pegnet.DB != nil
+//@   ensures @resumes_from_the_persisted_height envHealthy && result1 == nil && LmetaPresent ==> result0.Sync.Synced == LmetaSynced
+//@   ensures @refused_database_needs_the_override_flag envHealthy && result1 == nil && !viperBool(conf, config.DisableHardForkCheck) ==> !mustRefuse(LsyncPresent, LsyncVer)
+//@
 //@ // read by the API goroutines (C18): reads the in-memory height, writes nothing
 //@ func (*Pegnetd).GetCurrentSync
 //@   props C18
